@@ -360,7 +360,13 @@ inline int duplicateCheck(const std::vector<Field> &f)
     for (std::size_t j = i + 1; j < f.size(); ++j)
       if (lower(f[i].name) == lower(f[j].name))
       {
-        if (lower(f[i].name) == "content-length" && f[i].value != f[j].value) return 1;
+        if (lower(f[i].name) == "content-length")
+        {
+          // conflicting = an invalid value or two different numbers; "0" next to "000" is the same length
+          // (a recipient MAY accept or reject identical repeats: no verdict)
+          std::uint64_t a = 0, b = 0;
+          if (parseDec(f[i].value, a) != 0 || parseDec(f[j].value, b) != 0 || a != b) return 1;
+        }
         rc = 2;
       }
   return rc;
